@@ -5,7 +5,7 @@ S = '@^(Batch::(put|put_kv|delete|commit)|<DB as (Put|Delete)>::(put|delete))$'
 # interior-mutability containers of Peers: their mutating calls are effects
 D = '@^(DashMap|Entry|OccupiedEntry|VacantEntry)::(insert|remove|entry|alter|clear|retain|and_modify|or_insert_with|or_insert|or_default)$'
 CENSUS = {
-    'C03': ['Storage::filter_block' + S, 'Storage::update_block_number' + S,
+    'C03': ['Storage::rollback_to_block' + S, 'Storage::filter_block' + S, 'Storage::update_block_number' + S,
             'Storage::update_filter_scripts' + S[:-2] + '|Storage::clear_matched_blocks|Storage::filter_block)$'],
     'C04': ['Storage::rollback_to_block' + S],
     'C08': ['Storage::init_genesis_block' + S[:-2] + '|Storage::filter_block|Storage::update_last_state)$', 'Storage::update_last_state' + S, 'Storage::add_matched_blocks' + S, 'Storage::remove_matched_blocks' + S, 'Storage::update_min_filtered_block_number' + S],
@@ -63,7 +63,7 @@ HANDLERS = {
     'C18': ['!<TransactionRpcImpl as TransactionRpc>::send_transaction@^PendingTxs::push$'],
 }
 # the same handler entries are also necessary conditions of other properties (the table is keyed by function)
-HANDLERS['C03'] = [HANDLERS['C06'][0], HANDLERS['C02'][2]]
+HANDLERS['C03'] = [HANDLERS['C06'][0], HANDLERS['C02'][2], HANDLERS['C12'][1], HANDLERS['C02'][0]]   # + commit_prove_state (F76), SendBlocksProof (F74)
 HANDLERS['C02'] = HANDLERS['C02'] + [HANDLERS['C12'][1]]   # commit_prove_state: the kept matched-blocks record (F42)
 HANDLERS['C04'] = [HANDLERS['C01'][0], HANDLERS['C12'][1], HANDLERS['C02'][0]]   # SendBlocksProof: missing matched block (F54)
 HANDLERS['C06'] = HANDLERS['C06'] + [HANDLERS['C02'][2], HANDLERS['C02'][0]]   # + SendBlocksProof (F67)
